@@ -10,6 +10,9 @@ import traceback
 
 
 def main(argv):
+    import warnings
+
+    warnings.simplefilter("ignore", SyntaxWarning)
     prop, batch = argv[0], argv[1]
     with open(batch) as f:
         cases = json.load(f)
